@@ -1,0 +1,156 @@
+/*!
+ * Verification hooks, compiled only with the `verif-hooks` cargo feature.
+ *
+ * The six leaf unchecked element accessors of the crate (`Tensor`, `Matrix` and `MatrixPart`,
+ * shared and mutable) report every access here before performing it. The hook
+ *
+ * - checks that the index lies inside the container's shape and that the shape agrees with the
+ *   stored element count (and, for tensors, that names are unique and lengths non zero), and
+ *   panics with a message starting `VERIF-HOOK` otherwise, *before* the unchecked access
+ *   happens;
+ * - optionally records the access in a thread local log, so a harness can compare the sequence
+ *   of storage offsets an operation touches with the sequence a model predicts.
+ *
+ * With the feature off none of this exists and the crate is unchanged.
+ */
+
+use std::cell::RefCell;
+
+/// Which kind of leaf container was accessed.
+#[derive(Clone, Copy, Debug, PartialEq, Eq)]
+pub enum Leaf {
+    Tensor,
+    Matrix,
+    MatrixPart,
+}
+
+/// One unchecked leaf access.
+#[derive(Clone, Debug, PartialEq, Eq)]
+pub struct Access {
+    pub leaf: Leaf,
+    /// Address of the first element of the accessed container's storage (identifies the leaf).
+    pub base: usize,
+    /// Offset into the flat storage (for a `MatrixPart`: `row * columns + column`).
+    pub offset: usize,
+    /// Number of stored elements.
+    pub len: usize,
+    /// Was this a mutable access?
+    pub mutable: bool,
+    /// Did the access satisfy the in-bounds and shape/element-count invariants?
+    pub ok: bool,
+}
+
+thread_local! {
+    static LOG: RefCell<Option<Vec<Access>>> = const { RefCell::new(None) };
+    static CHECKS: RefCell<(u64, u64)> = const { RefCell::new((0, 0)) };
+}
+
+/// Starts (or restarts) recording accesses on this thread.
+pub fn start_log() {
+    LOG.with(|l| *l.borrow_mut() = Some(Vec::new()));
+}
+
+/// Stops recording and returns what was recorded since `start_log`.
+pub fn take_log() -> Vec<Access> {
+    LOG.with(|l| l.borrow_mut().take().unwrap_or_default())
+}
+
+/// (number of accesses checked, number that failed) on this thread since the last call.
+pub fn take_counts() -> (u64, u64) {
+    CHECKS.with(|c| std::mem::replace(&mut *c.borrow_mut(), (0, 0)))
+}
+
+fn record(access: Access, what: std::fmt::Arguments) {
+    let ok = access.ok;
+    CHECKS.with(|c| {
+        let mut c = c.borrow_mut();
+        c.0 += 1;
+        if !ok {
+            c.1 += 1;
+        }
+    });
+    LOG.with(|l| {
+        if let Some(log) = l.borrow_mut().as_mut() {
+            log.push(access);
+        }
+    });
+    if !ok {
+        panic!("VERIF-HOOK out of contract unchecked access: {}", what);
+    }
+}
+
+pub(crate) fn tensor_access(
+    indexes: &[usize],
+    shape: &[(&'static str, usize)],
+    strides: &[usize],
+    len: usize,
+    base: usize,
+    mutable: bool,
+) {
+    let in_bounds = indexes.iter().zip(shape.iter()).all(|(i, (_, l))| i < l);
+    let product = shape
+        .iter()
+        .try_fold(1usize, |acc, (_, l)| acc.checked_mul(*l));
+    let names_unique = (0..shape.len()).all(|i| (0..i).all(|j| shape[i].0 != shape[j].0));
+    let non_zero = shape.iter().all(|(_, l)| *l > 0);
+    let ok = in_bounds && product == Some(len) && names_unique && non_zero;
+    let offset = indexes
+        .iter()
+        .zip(strides.iter())
+        .fold(0usize, |acc, (i, s)| acc.wrapping_add(i.wrapping_mul(*s)));
+    record(
+        Access { leaf: Leaf::Tensor, base, offset, len, mutable, ok },
+        format_args!("tensor index {:?} shape {:?} stored elements {}", indexes, shape, len),
+    );
+}
+
+pub(crate) fn matrix_access(
+    row: usize,
+    column: usize,
+    rows: usize,
+    columns: usize,
+    len: usize,
+    base: usize,
+    mutable: bool,
+) {
+    let ok = row < rows && column < columns && rows.checked_mul(columns) == Some(len) && len > 0;
+    let offset = row.wrapping_mul(columns).wrapping_add(column);
+    record(
+        Access { leaf: Leaf::Matrix, base, offset, len, mutable, ok },
+        format_args!(
+            "matrix index ({}, {}) size {}x{} stored elements {}",
+            row, column, rows, columns, len
+        ),
+    );
+}
+
+pub(crate) fn matrix_part_access(
+    row: usize,
+    column: usize,
+    rows: usize,
+    columns: usize,
+    stored_rows: usize,
+    stored_columns: Option<usize>,
+    base: usize,
+    mutable: bool,
+) {
+    let ok = row < rows
+        && column < columns
+        && stored_rows == rows
+        && stored_columns.map(|c| c == columns).unwrap_or(false);
+    let offset = row.wrapping_mul(columns).wrapping_add(column);
+    record(
+        Access {
+            leaf: Leaf::MatrixPart,
+            base,
+            offset,
+            len: rows.wrapping_mul(columns),
+            mutable,
+            ok,
+        },
+        format_args!(
+            "matrix part index ({}, {}) size {}x{} stored rows {} stored row length {:?}",
+            row, column, rows, columns, stored_rows, stored_columns
+        ),
+    );
+}
